@@ -37,6 +37,9 @@ def flagged_program(rng, i):
         expect[name] = "%s%s---" % ("p" if pub else "-", "e" if ext else "-") if name != "main" else "--m--"
     if rng.random() < 0.4:
         out += "extern fn puts_like(s: []u8) -> i32;\n"; expect["puts_like"] = "-e-f-"
+    if expect and rng.random() < 0.3:
+        # a constant may have the name of a function (separate name spaces): the function keeps its symbol
+        out = "const %s: i32 = 7;\n" % rng.choice(sorted(expect)) + out
     return out.replace("notmain(", "notmain("), expect
 
 
